@@ -350,6 +350,14 @@ class _Marshaller:
     # FIXME: will probably have to adjust similar to how we
     # adjusted dump_code2
     def dump_code3(self, x):
+        if hasattr(x, "co_exceptiontable") and hasattr(x, "co_qualname"):
+            # 3.11 changed the marshalled layout of a code object (no
+            # co_nlocals; localsplus names and kinds; co_qualname,
+            # co_exceptiontable). Writing the 3.8 layout would produce a
+            # file that Python 3.11+ rejects, so refuse instead.
+            raise TypeError(
+                "marshalling a Python 3.11 or later code object is not supported"
+            )
         self._write(TYPE_CODE)
         self.w_long(x.co_argcount)
         if hasattr(x, "co_posonlyargcount"):
